@@ -1,4 +1,5 @@
 import PnVerif.Lemmas.ScsLemmas
+import PnVerif.Lemmas.IntraNodeLemmas
 /-
   C15 — out-of-range requests are rejected with the documented error; accepted requests address
   only elements of the addressed variable; rejected and zero-length requests touch nothing.
@@ -209,13 +210,13 @@ theorem zero_length_touches_nothing (v : VarLayout) (r : Req) (h : ∃ d ∈ r.d
   | cons d0 _ => simp [hi]
 
 /-- a rejected put leaves every byte of the file as it was and reports the checker's code -/
-theorem rejected_changes_nothing (A : Arith) (c : Ctx) (v : VarLayout) (r : Req) (data : Nat → Nat → Nat) (f : File)
+theorem rejected_changes_nothing (A : Arith) (c : Ctx) (v : VarLayout) (r : Req) (data : Nat → Nat → Nat) (f : Scs.File)
     (h : checkSCS A c r ≠ NC_NOERR) : apiPut A c v r data f = (f, checkSCS A c r) := by
   unfold apiPut; simp [h]
 
 /-- a zero-length put leaves every byte of the file as it was -/
 theorem zero_length_put_changes_nothing (A : Arith) (c : Ctx) (v : VarLayout) (r : Req) (data : Nat → Nat → Nat)
-    (f : File) (h : ∃ d ∈ r.dims, effCount r d ≤ 0) : (apiPut A c v r data f).1 = f := by
+    (f : Scs.File) (h : ∃ d ∈ r.dims, effCount r d ≤ 0) : (apiPut A c v r data f).1 = f := by
   by_cases h' : checkSCS A c r = NC_NOERR
   · simp [apiPut, h', (zero_length_touches_nothing v r h).1, writeAll]
   · simp [apiPut, h']
@@ -226,7 +227,7 @@ theorem accepted_put_changes_only_target (c : Ctx) (r : Req) (v : VarLayout) (hn
     (hs : ∀ d ∈ r.dims, 0 ≤ d.shape) (hstr : r.hasStride = true → c.needCount = true)
     (hrec : c.isRec = false) (hv : v.isRec = false)
     (hshape : v.shape = r.dims.map (fun d => d.shape.toNat))
-    (data : Nat → Nat → Nat) (f : File) (p : Nat)
+    (data : Nat → Nat → Nat) (f : Scs.File) (p : Nat)
     (hp : p < v.begin ∨ v.begin + prodl v.shape * v.xsz ≤ p) :
     (apiPut exact c v r data f).1 p = f p := by
   by_cases hacc : checkSCS exact c r = NC_NOERR
@@ -242,7 +243,7 @@ theorem accepted_put_changes_only_target_record (c : Ctx) (r : Req) (v : VarLayo
     (hs : ∀ d ∈ r.dims, 0 ≤ d.shape) (hstr : r.hasStride = true → c.needCount = true)
     (hrec : c.isRec = true) (hv : v.isRec = true)
     (hshape : v.shape = r.dims.map (fun d => d.shape.toNat))
-    (data : Nat → Nat → Nat) (f : File) (p : Nat)
+    (data : Nat → Nat → Nat) (f : Scs.File) (p : Nat)
     (hp : ∀ rec : Nat, p < v.begin + rec * v.recsize ∨
                        v.begin + rec * v.recsize + prodl v.shape.tail * v.xsz ≤ p) :
     (apiPut exact c v r data f).1 p = f p := by
@@ -254,6 +255,106 @@ theorem accepted_put_changes_only_target_record (c : Ctx) (r : Req) (v : VarLayo
     obtain ⟨rec, h1, h2, _⟩ := accepted_inside_record c r v hne hs hstr hrec hv hshape hacc off hoff
     have := hp rec
     omega
+
+/-! ### intra-node write aggregation (src/drivers/ncmpio/ncmpio_intra_node.c, Model/IntraNode.lean)
+
+  With the hint nc_num_aggrs_per_node an accepted collective write does not go through the file-type
+  path of ncmpio_filetype.c: every rank flattens its request into (offset, length) pairs
+  (flatten_req / flatten_subarray), sends pairs and data to its aggregator, which sorts, merges,
+  packs and coalesces them and issues ONE write.  The two theorems say that this path touches exactly
+  the addressed elements with exactly the bytes of the right rank's buffer. -/
+
+/-- **flattenReq_offsets**: for every variable (scalar, fixed-size or record, any rank) and every
+    start/count/stride with positive counts, the (offset, length) pairs emitted by flatten_req expand to
+    exactly the file offsets of the request's elements (`Access.elemOff`, the format's element address),
+    in request order — none missing, none extra, none repeated.  The shape advanced past the record
+    dimension, the stride of the record dimension and the per-dimension strides are all in this
+    statement (seeded changes C10-1, C15-3 and the repaired F22 falsify it). -/
+theorem flattenReq_offsets (v : PnVerif.Access.VarLay) (s c k : List Nat)
+    (h1 : s.length = c.length) (h2 : s.length = k.length) (h3 : s.length = v.shape.length)
+    (hel : 0 < v.xsz) (hpos : ∀ x ∈ c, 0 < x) :
+    PnVerif.IntraNode.expandPairs v.xsz (PnVerif.IntraNode.flattenReq v s c k)
+      = (PnVerif.Access.enumIdx s c k).map (PnVerif.Access.elemOff v) :=
+  PnVerif.IntraNode.flattenReq_offsets' v s c k h1 h2 h3 hel hpos
+
+/-- the pairs of one call of flatten_subarray (one record, or a whole fixed-size variable) -/
+theorem flattenSubarray_offsets (el b : Nat) (dimlen s c k : List Nat)
+    (h1 : s.length = c.length) (h2 : s.length = k.length) (h3 : s.length = dimlen.length)
+    (hel : 0 < el) (hpos : ∀ x ∈ c, 0 < x) :
+    PnVerif.IntraNode.expandPairs el (PnVerif.IntraNode.flattenSubarray el b dimlen s c k)
+      = (PnVerif.Access.enumIdx s c k).map (PnVerif.Access.elemOff (PnVerif.IntraNode.arr el b dimlen)) :=
+  PnVerif.IntraNode.flattenSubarray_offsets el b dimlen s c k h1 h2 h3 hel hpos
+
+/-- **aggrMerge_preserves**: for any number of ranks and requests whose (offset, length) pairs are
+    pairwise disjoint in the file (positive lengths), the aggregator's single write — sort by offset,
+    merge loop, packing of recv_buf into wr_buf, coalescing of file-adjacent pairs — moves exactly the
+    (file byte ← recv_buf byte) pairs of the inputs: a permutation of `pairs (mkSegs inputs)`, where
+    (`aggr_inputs_meaning`) the inputs' file bytes are paired, in arrival order, with the consecutive
+    bytes of recv_buf, the concatenation of the ranks' packed write buffers.
+    (Seeded change C01-3 — the dropped `bufAddr[i] = bufAddr[j]` — falsifies it.) -/
+theorem aggrMerge_preserves (ranks : List (List (Int × Int)))
+    (hpos : ∀ p ∈ ranks.flatten, 0 < p.2)
+    (hdisj : List.Pairwise (fun a b => a.1 + a.2 ≤ b.1 ∨ b.1 + b.2 ≤ a.1) ranks.flatten) :
+    (PnVerif.IntraNode.aggrTransfer ranks.flatten).Perm
+      (PnVerif.Merge.pairs (PnVerif.IntraNode.mkSegs ranks.flatten)) := by
+  unfold PnVerif.IntraNode.aggrTransfer PnVerif.IntraNode.aggregate PnVerif.IntraNode.mkSegs
+  apply PnVerif.IntraNode.aggregate_pairs
+  · exact PnVerif.IntraNode.mkSegs_pos _ 0 hpos
+  · exact PnVerif.IntraNode.mkSegs_pairwise _ _ 0 hdisj
+
+/-- **an accepted request that goes through intra-node aggregation covers exactly the request's
+    footprint**: the pairs of flatten_req expand to `footprint v r`, the element offsets of the C15
+    addressing model, for which `accepted_inside` / `accepted_inside_record` show that they lie inside
+    the addressed variable (its record slots) — nothing else is touched -/
+theorem aggregated_write_footprint (c : Ctx) (r : Req) (v : VarLayout) (hne : r.dims ≠ [])
+    (hs : ∀ d ∈ r.dims, 0 ≤ d.shape) (hstr : r.hasStride = true → c.needCount = true)
+    (hacc : checkSCS exact c r = NC_NOERR)
+    (hlen : v.shape.length = r.dims.length) (hel : 0 < v.xsz) (hpos : ∀ d ∈ r.dims, 0 < effCount r d) :
+    PnVerif.IntraNode.expandPairs v.xsz
+        (PnVerif.IntraNode.flattenReq (PnVerif.IntraNode.toLay v) (r.dims.map (fun d => d.start.toNat))
+          (r.dims.map (fun d => (effCount r d).toNat)) (r.dims.map (fun d => (effStride r d).toNat)))
+      = footprint v r :=
+  PnVerif.IntraNode.flattenReq_footprint' c r v ((checkSCS_iff_exact c r hne hs hstr).mp hacc) hlen hne hel hpos
+
+/-- … hence every byte of the flattened pairs of an accepted write to a fixed-size variable lies in
+    the variable's own data area -/
+theorem aggregated_write_inside (c : Ctx) (r : Req) (v : VarLayout) (hne : r.dims ≠ [])
+    (hs : ∀ d ∈ r.dims, 0 ≤ d.shape) (hstr : r.hasStride = true → c.needCount = true)
+    (hrec : c.isRec = false) (hv : v.isRec = false)
+    (hshape : v.shape = r.dims.map (fun d => d.shape.toNat))
+    (hacc : checkSCS exact c r = NC_NOERR) (hel : 0 < v.xsz) (hpos : ∀ d ∈ r.dims, 0 < effCount r d) :
+    ∀ off ∈ PnVerif.IntraNode.expandPairs v.xsz
+        (PnVerif.IntraNode.flattenReq (PnVerif.IntraNode.toLay v) (r.dims.map (fun d => d.start.toNat))
+          (r.dims.map (fun d => (effCount r d).toNat)) (r.dims.map (fun d => (effStride r d).toNat))),
+      v.begin ≤ off ∧ off + v.xsz ≤ v.begin + prodl v.shape * v.xsz := by
+  rw [aggregated_write_footprint c r v hne hs hstr hacc (by rw [hshape]; simp) hel hpos]
+  exact accepted_inside c r v hne hs hstr hrec hv hshape hacc
+
+/-- the meaning of the aggregator's input triples -/
+theorem aggr_inputs_meaning (inputs : List (Int × Int)) (hp : ∀ p ∈ inputs, 0 ≤ p.2) :
+    (PnVerif.Merge.pairs (PnVerif.IntraNode.mkSegs inputs)).map (·.1)
+        = inputs.flatMap (fun p => PnVerif.Merge.span p.1 p.2) ∧
+    (PnVerif.Merge.pairs (PnVerif.IntraNode.mkSegs inputs)).map (·.2)
+        = PnVerif.Merge.span 0 (PnVerif.IntraNode.sumLens inputs) :=
+  PnVerif.IntraNode.mkSegs_meaning inputs 0 hp
+
+/-- packing + coalescing alone (second loop) never changes the byte map, whatever the triples -/
+theorem aggrPack_preserves (l : List PnVerif.Merge.Seg) (hp : ∀ s ∈ l, 0 ≤ s.len) :
+    (PnVerif.Merge.bytesOf (PnVerif.IntraNode.filePairs l)).zip (PnVerif.IntraNode.wrBuf l)
+      = PnVerif.Merge.pairs l :=
+  PnVerif.IntraNode.pack_transfer l hp
+
+/-- non-vacuity: a 3-D record variable with a non-square record (3 × 5), strided in the record
+    dimension and in both inner dimensions (kernel-evaluated) -/
+example :
+    let v : PnVerif.Access.VarLay := { begin := 100, xsz := 4, shape := [0, 3, 5], isRec := true, recsize := 100 }
+    PnVerif.IntraNode.flattenReq v [1, 0, 1] [2, 2, 2] [2, 2, 2]
+      = [(204, 4), (212, 4), (244, 4), (252, 4), (404, 4), (412, 4), (444, 4), (452, 4)] := by decide
+/-- two ranks, file-adjacent AND memory-adjacent pairs of rank 0 fused, rank 1 interleaved -/
+example : PnVerif.IntraNode.aggregate [(0, 4), (4, 4), (16, 4), (8, 4), (20, 4)]
+    = [⟨0, 8, 0⟩, ⟨8, 4, 12⟩, ⟨16, 4, 8⟩, ⟨20, 4, 16⟩] := by decide
+example : PnVerif.IntraNode.filePairs (PnVerif.IntraNode.aggregate [(0, 4), (4, 4), (16, 4), (8, 4), (20, 4)])
+    = [(0, 12), (16, 8)] := by decide
 
 /-! ### non-vacuity: concrete instances meeting the hypotheses -/
 
@@ -283,6 +384,8 @@ def obligations : List String := [
   "f15_accepted", "f15_not_inbounds", "f15_exact_rejects", "checkSCS_iff_counterexample",
   "checkSCS_iff_partial", "checkSCS_c64_eq_exact", "noOvf_of_small",
   "checkSCS_iff_repaired", "checkSCS_repaired_eq_exact", "repaired_no_overflow",
+  "flattenReq_offsets", "flattenSubarray_offsets", "aggrMerge_preserves", "aggr_inputs_meaning", "aggrPack_preserves",
+  "aggregated_write_footprint", "aggregated_write_inside",
   "accepted_inside", "accepted_inside_record", "rowMajor_inside",
   "zero_length_touches_nothing", "rejected_changes_nothing", "zero_length_put_changes_nothing",
   "accepted_put_changes_only_target", "accepted_put_changes_only_target_record"
